@@ -33,6 +33,13 @@ def histories(tier, seed):
         c += ["C 1 snapshot false", "SNAP", "RESTART"] + AFTER
         H.append(c)
     if tier == "quick": H = H[::7]
+    # removed keys that are already in the store travel through the next snapshot as records of their own, in hash order BETWEEN the
+    # live keys: whichever key is removed, every record after it must still be found where the keys object says (values of different lengths)
+    KV5 = [("a", "1"), ("bb", "two words"), ("c", "h\\xc3\\xa9"), ("dddd", "x" * 40), ("e", "")]
+    for rem in [(k,) for k, _ in KV5] + list(itertools.combinations([k for k, _ in KV5], 2)):
+        c = list(SETUP) + [f"C 1 set {k} {v}".rstrip() for k, v in KV5] + ["C 1 snapshot false", "SNAP"] + [f"C 1 remove {k}" for k in rem]
+        c += ["C 1 set bb changed", "C 1 snapshot false", "SNAP", "RESTART"] + AFTER + [f"C 1 get-safe {k}" for k, _ in KV5]
+        H.append(c)
     # two databases (the implementation loads them on concurrent threads: not compared with the model line by line)
     two = ["RESET", "SESS 1", "C 1 auth adm pw", "C 1 create-db t tok newer", "C 1 create-db u tk2 arbiter", "C 1 use-db t tok", "C 1 set a 1", "C 1 use-db u tk2", "C 1 set z 9",
            "C 1 snapshot false t|u", "SNAP", "RESTART", "SESS 1", "C 1 auth adm pw", "C 1 debug list-dbs", "C 1 use-db u tk2", "C 1 get-safe z"]
